@@ -266,8 +266,8 @@ pub fn synthetic(rng: &mut ChaCha20Rng, prep_plan: PreparationPlan) -> Fixture {
             vec![]
         } else {
             match rng.gen_range(0..20) {
-                0..=13 => vec![*preps.choose(rng).unwrap()],
-                14..=16 => vec![],
+                0..=10 => vec![*preps.choose(rng).unwrap()],
+                11..=13 => vec![],
                 _ => {
                     let k = preps.len().min(rng.gen_range(2..=3));
                     let mut d: Vec<u32> = preps.choose_multiple(rng, k).copied().collect();
@@ -364,6 +364,23 @@ pub fn synthetic(rng: &mut ChaCha20Rng, prep_plan: PreparationPlan) -> Fixture {
             nfs,
             None,
         ));
+    }
+    // the shape a reorg leaves behind: a proved transaction one of whose several dependencies
+    // is back in flight
+    if !arbitrary && rng.gen_bool(0.15) {
+        let cands: Vec<usize> = (0..n)
+            .filter(|i| ranks[*i] == 2 && kinds[*i].1.len() >= 2 && kinds[*i].1.iter().all(|d| ranks[*d as usize] == 4))
+            .collect();
+        if let Some(i) = cands.choose(rng) {
+            let d = *kinds[*i].1.choose(rng).unwrap() as usize;
+            // only if nothing else already built on that dependency being mined
+            let others = (0..n).any(|j| j != *i && ranks[j] >= 2 && kinds[j].1.contains(&(d as u32)));
+            if !others {
+                ranks[d] = 3;
+                let txid = txs[d].txid();
+                txs[d] = rebuild_tx(&txs[d], |p| p.state = MigrationTxState::Broadcast { txid });
+            }
+        }
     }
     // marks and reports (respecting: a report only on a Proved row, no mark on a mined row)
     if rng.gen_bool(0.12) {
